@@ -325,10 +325,10 @@ pub fn run(tier: Tier) -> i32 {
     let mut run = Run::new("C11", tier, "exploration");
     let p = FastqWrite;
     run.replays("fastq-write-roundtrip", &p);
-    run.generated("fastq-write-roundtrip", &p, tier.pick(40_000, 1_500_000));
+    run.generated("fastq-write-roundtrip", &p, tier.pick(200_000, 1_500_000));
     let q = Unchanged;
     run.replays("write-unchanged", &q);
-    run.generated("write-unchanged", &q, tier.pick(60_000, 2_500_000));
+    run.generated("write-unchanged", &q, tier.pick(300_000, 2_500_000));
     run.finish(RULE, &["record byte ranges come from the reference model", "the parser used for the round trip is the crate's own reader"])
 }
 
